@@ -7,6 +7,6 @@ git -C /repo diff --quiet || { echo "/repo is dirty"; exit 3; }
 git -C /repo apply "$P" || { echo "patch does not apply"; exit 3; }
 export VERIF_ROOT=/tmp/verif-seedtest-$$; mkdir -p $VERIF_ROOT; cp -r oracle known_findings.jsonl $VERIF_ROOT/
 ./build.sh $ID >/dev/null 2>&1
-./bin/vh $ID $TIER 2>&1 | grep -E "^VIOLATION|what:|^C[0-9]+ |INCONCL" | cut -c1-400 | head -${4:-12}
+./bin/vh $ID $TIER 2>&1 | grep -a -E "^VIOLATION|what:|^C[0-9]+ |INCONCL" | cut -c1-400 | head -${4:-12}
 git -C /repo checkout -- . ; rm -rf $VERIF_ROOT
 ./build.sh $ID >/dev/null 2>&1
